@@ -1,5 +1,6 @@
 # mypy: disable-error-code="dict-item"
 import collections
+import collections.abc
 import concurrent.futures
 import queue
 import re
@@ -29,6 +30,17 @@ BUILTIN_ORIGIN_TO_TYPEVARS: Mapping[type, VarTuple[TypeVar]] = {
     collections.defaultdict: (_T1, _T2),
     collections.OrderedDict: (_T1, _T2),
     collections.ChainMap: (_T1, _T2),
+    collections.abc.Iterable: (_T1_co, ),
+    collections.abc.Iterator: (_T1_co, ),
+    collections.abc.Reversible: (_T1_co, ),
+    collections.abc.Container: (_T1_co, ),
+    collections.abc.Collection: (_T1_co, ),
+    collections.abc.Sequence: (_T1_co, ),
+    collections.abc.MutableSequence: (_T1, ),
+    collections.abc.Set: (_T1_co, ),
+    collections.abc.MutableSet: (_T1, ),
+    collections.abc.Mapping: (_T1, _T2),
+    collections.abc.MutableMapping: (_T1, _T2),
     queue.Queue: (_T1, ),
     queue.PriorityQueue: (_T1, ),
     queue.LifoQueue: (_T1, ),
